@@ -53,16 +53,16 @@ func (ft *FuncTr) rangeFuncCall(st *State, at *Term, in ssa.Instruction, c *ssa.
 	ft.assume(at, Eq(keys, ft.seqKeys(fnv.T, ks)))
 	// ordinal of the source loop
 	var node ast.Node = yfn.Syntax()
-	ord := 0
+	ord, ai := 0, -1
 	for i, a := range ft.astLoops {
 		if a == node || (node != nil && a.Pos() == node.Pos()) {
-			ord = i + 1
+			ord, ai = ft.ordOfAst[i], i
 		}
 	}
 	if ord == 0 {
 		return Val{}, unsupported("cannot find the source loop of a range-over-func")
 	}
-	l := &LoopInfo{Ordinal: ord, Node: ft.astLoops[ord-1], RangeFunc: yfn, rfKeys: keys}
+	l := &LoopInfo{Ordinal: ord, Node: ft.astLoops[ai], RangeFunc: yfn, rfKeys: keys}
 	gname := fmt.Sprintf("$rfv%d", ord)
 	l.rfGhost = gname
 	l.rfSort = SArray(ks, SBool)
